@@ -50,7 +50,7 @@ func lsRemotePart(c *vf.Ctx, g *gitx.Git) {
 	dir := c.TempDir("lsremote")
 	n := c.N(130, 1800)
 	vf.Parallel(n, 6, func(i int) {
-		m := genAdv(c.Rand("adv-git", i))
+		m := genAdv(c.Rand("adv-git", i), false)
 		v := m.value()
 		wire, err := enc(func(b *bytes.Buffer) error { return v.Encode(b) })
 		if err != nil {
